@@ -13,6 +13,9 @@
  *                     building the reply, runs out of memory).
  * argv[1] = "swap"  : A primary (allows replacement), RequestName(REPLACE_EXISTING) by B:
  *                     bus_service_add_owner(B) + bus_service_swap_owner(A) succeed, then cancel.
+ * argv[1] = "atomic": A primary with ALLOW_REPLACEMENT, B waiting.  (1) A: RequestName(flags 0) -> ALREADY_OWNER, then the
+ *                     driver cannot build the reply (NoMemory) and the transaction is cancelled;  (2) B: RequestName(
+ *                     DO_NOT_QUEUE) -> EXISTS, likewise cancelled.  Expected (C14): A still allows replacement, B still waits.
  * Expected (C14): the queue is exactly as before, nobody twice, no freed owner in it.
  * build (see tool/replay.py native_run, or by hand):
  *   gcc -g -w -fsanitize=address -DDBUS_COMPILATION -DHAVE_CONFIG_H -D_GNU_SOURCE -DDBUS_STATIC_BUILD -I/repo -I/repo/_build \
@@ -29,16 +32,26 @@
 #define _dbus_assert(c) do { if (!(c)) { printf ("ASSERTION FAILED (daemon would abort): %s  [%s:%d]\n", #c, __FILE__, __LINE__); n_assert++; } } while (0)
 static int n_assert;
 const char bus_no_memory_message[] = "Memory allocation failure in message bus";
+#define dbus_connection_ref verif_standin_connection_ref
+#define dbus_connection_unref verif_standin_connection_unref
 #include "bus/services.c"
 
 struct DBusConnection { const char *name; int owned; };   /* stand-in: only identity, name and the counter */
 static struct DBusConnection A = { ":1.0", 0 }, B = { ":1.1", 0 }, C = { ":1.2", 0 };
 /* never called in these scenarios; present so that the whole of services.c links */
-#define DUMMY(name) void verif_dummy_##name (void) __asm__ (#name); void verif_dummy_##name (void) { abort (); }
-DUMMY (bus_activation_send_pending_auto_activation_messages) DUMMY (bus_apparmor_allows_acquire_service) DUMMY (bus_client_policy_check_can_own)
-DUMMY (bus_connection_get_n_services_owned) DUMMY (bus_connection_get_policy) DUMMY (bus_connection_is_active) DUMMY (bus_context_get_max_services_per_connection)
-DUMMY (bus_context_get_type) DUMMY (bus_context_log) DUMMY (bus_selinux_allows_acquire_service) DUMMY (bus_selinux_id_table_insert) DUMMY (bus_selinux_id_table_lookup)
-DUMMY (bus_selinux_id_table_new)
+#define DUMMY(name) void verif_dummy_##name (void) __asm__ (#name) __attribute__ ((weak)); void verif_dummy_##name (void) { abort (); }
+DUMMY (bus_context_log) DUMMY (bus_selinux_id_table_insert) DUMMY (bus_selinux_id_table_new)
+/* neighbours of bus_registry_acquire_service ("atomic" mode): everything is allowed, limit 10 */
+dbus_bool_t bus_activation_send_pending_auto_activation_messages (BusActivation *a, BusService *s, BusTransaction *t) { return TRUE; }
+dbus_bool_t bus_apparmor_allows_acquire_service (DBusConnection *c, const char *bt, const char *n, DBusError *e) { return TRUE; }
+dbus_bool_t bus_client_policy_check_can_own (BusClientPolicy *p, const DBusString *n) { return TRUE; }
+int bus_connection_get_n_services_owned (DBusConnection *c) { return 1; }
+BusClientPolicy *bus_connection_get_policy (DBusConnection *c) { return (BusClientPolicy *) c; }
+dbus_bool_t bus_connection_is_active (DBusConnection *c) { return TRUE; }
+int bus_context_get_max_services_per_connection (BusContext *c) { return 10; }
+const char *bus_context_get_type (BusContext *c) { return "session"; }
+dbus_bool_t bus_selinux_allows_acquire_service (DBusConnection *c, BusSELinuxID *sid, const char *n, DBusError *e) { return TRUE; }
+BusSELinuxID *bus_selinux_id_table_lookup (DBusHashTable *t, const DBusString *n) { return NULL; }
 /* ---- neighbours ---- */
 dbus_bool_t bus_driver_send_service_acquired (DBusConnection *c, const char *n, BusTransaction *t, DBusError *e) { printf ("  signal NameAcquired(%s) -> %s\n", n, c->name); return TRUE; }
 dbus_bool_t bus_driver_send_service_lost (DBusConnection *c, const char *n, BusTransaction *t, DBusError *e) { printf ("  signal NameLost(%s) -> %s\n", n, c->name); return TRUE; }
@@ -69,11 +82,28 @@ int main (int argc, char **argv)
 {
   setvbuf (stdout, NULL, _IONBF, 0); setenv ("DBUS_DISABLE_MEM_POOLS", "1", 1);   /* so that ASan sees a freed BusOwner */
   DBusError e; dbus_error_init (&e); BusTransaction t; memset (&t, 0, sizeof t); DBusString name; _dbus_string_init_const (&name, "com.example.N");
-  int swap = argc > 1 && !strcmp (argv[1], "swap"), qpos = argc > 1 && !strcmp (argv[1], "queuepos");
+  int swap = argc > 1 && !strcmp (argv[1], "swap"), qpos = argc > 1 && !strcmp (argv[1], "queuepos"), atomic = argc > 1 && !strcmp (argv[1], "atomic");
   BusRegistry *r = bus_registry_new ((BusContext *) &t);
-  BusService *s = bus_registry_ensure (r, &name, &A, swap ? DBUS_NAME_FLAG_ALLOW_REPLACEMENT : 0, &t, &e); txn_execute (&t);
+  BusService *s = bus_registry_ensure (r, &name, &A, (swap || atomic) ? DBUS_NAME_FLAG_ALLOW_REPLACEMENT : 0, &t, &e); txn_execute (&t);
   if (!swap) { bus_service_add_owner (s, &B, 0, &t, &e); txn_execute (&t); }
   show ("before the request ", s);
+  if (atomic)
+    { dbus_uint32_t code = 0; int bad;
+      printf ("A allows replacement: %d\n", (int) bus_service_get_allow_replacement (s));
+      printf ("A: RequestName(flags 0)\n");
+      if (!bus_registry_acquire_service (r, &A, &name, 0, &code, &t, &e)) return 2;
+      printf ("  registry answered %u (ALREADY_OWNER = 4); the driver then fails to build the reply: NoMemory -> transaction cancelled\n", code);
+      txn_cancel (&t);
+      printf ("A allows replacement: %d   (request was refused with NoMemory, so it should still be 1)\n", (int) bus_service_get_allow_replacement (s));
+      bad = !bus_service_get_allow_replacement (s);
+      printf ("B: RequestName(DO_NOT_QUEUE)\n");
+      if (!bus_registry_acquire_service (r, &B, &name, DBUS_NAME_FLAG_DO_NOT_QUEUE, &code, &t, &e)) return 2;
+      printf ("  registry answered %u (EXISTS = 3); reply cannot be built: NoMemory -> transaction cancelled\n", code);
+      txn_cancel (&t);
+      show ("after the cancel    ", s);
+      bad |= !bus_service_owner_in_queue (s, &B);
+      printf ("%s\n", bad ? "STATE CHANGED BY REQUESTS THAT FAILED WITH NoMemory: violation confirmed" : "unchanged");
+      return bad; }
   if (qpos)
     { printf ("C: RequestName(REPLACE_EXISTING), replacement not possible -> bus_service_add_owner(C, REPLACE_EXISTING)\n");
       if (!bus_service_add_owner (s, &C, DBUS_NAME_FLAG_REPLACE_EXISTING, &t, &e)) return 2; txn_execute (&t);
